@@ -16,6 +16,7 @@ import signal
 import traceback
 
 ADDR = re.compile(r" at 0x[0-9a-fA-F]+")
+SCRATCH = re.compile(r"mystverif-(?:c15-|sphinx-)?[A-Za-z0-9_]{8}")
 
 
 class _Timeout(BaseException):
@@ -31,6 +32,8 @@ def mask(s: str, root: str) -> str:
     real = os.path.realpath(root)
     if real != root:
         s = s.replace(real, "<ROOT>")
+    # ids derived from text that contains the scratch path (make_id lower-cases and hyphenates it)
+    s = SCRATCH.sub("mystverif-x", s)
     return ADDR.sub(" at 0x?", s)
 
 
